@@ -21,6 +21,14 @@ Definition list_open (mk : marker) : str :=
   end.
 Definition list_close (mk : marker) : str := match mk with MBullet _ => $"</ul>" | MOrdered _ _ => $"</ol>" end.
 
+(* a list is loose when one of its items holds two blocks or more, or a blank line separates two of its items *)
+Fixpoint chain_loose (t : ftree) : bool :=
+  match t with
+  | FItem _ _ ts => 1 <? Z.of_nat (length ts)
+  | FMore _ _ ts bl next => bl || (1 <? Z.of_nat (length ts)) || chain_loose next
+  | _ => false
+  end.
+
 Fixpoint html_f (o : hopts) (tight : bool) (t : ftree) : str :=
   match t with
   | FPara c body more =>
@@ -32,8 +40,10 @@ Fixpoint html_f (o : hopts) (tight : bool) (t : ftree) : str :=
     let tight' := negb (1 <? Z.of_nat (length ts)) in
     list_open mk ++ [10] ++ $"<li>" ++ (if tight' && first_fpara ts then [] else [10]) ++
     join [10] (map (html_f o tight') ts) ++ (if tight' && last_fpara ts then [] else [10]) ++ $"</li>" ++ [10] ++ list_close mk
-  | FMore mk pad ts next =>      (* a list of several items is loose: every item holds its blocks on lines of their own, paragraphs in <p> *)
-    list_open mk ++ [10] ++ $"<li>" ++ [10] ++ join [10] (map (html_f o false) ts) ++ [10] ++ $"</li>" ++ [10] ++ html_lis o next ++ [10] ++ list_close mk
+  | FMore mk pad ts bl next =>      (* a list of several items: tight only if no item holds two blocks and no blank line separates two items *)
+    let tight' := negb (bl || (1 <? Z.of_nat (length ts)) || chain_loose next) in
+    list_open mk ++ [10] ++ $"<li>" ++ (if tight' && first_fpara ts then [] else [10]) ++
+    join [10] (map (html_f o tight') ts) ++ (if tight' && last_fpara ts then [] else [10]) ++ $"</li>" ++ [10] ++ html_lis o tight' next ++ [10] ++ list_close mk
   | FHead lv c body => $"<h" ++ [48 + Z.of_nat lv] ++ $">" ++ escape_html_text o (c :: body) ++ $"</h" ++ [48 + Z.of_nat lv] ++ $">"
   | FRule _ _ => $"<hr />"
   | FEm c0 pre ch double w post =>
@@ -41,10 +51,13 @@ Fixpoint html_f (o : hopts) (tight : bool) (t : ftree) : str :=
     let inner := escape_html_text o (c0 :: pre) ++ $"<" ++ tag ++ $">" ++ escape_html_text o w ++ $"</" ++ tag ++ $">" ++ escape_html_text o post in
     if tight then inner else $"<p>" ++ inner ++ $"</p>"
   end
-with html_lis (o : hopts) (t : ftree) : str :=      (* the items of the rest of a loose list *)
+with html_lis (o : hopts) (tight : bool) (t : ftree) : str :=      (* the items of the rest of a list *)
   match t with
-  | FItem _ _ ts => $"<li>" ++ [10] ++ join [10] (map (html_f o false) ts) ++ [10] ++ $"</li>"
-  | FMore _ _ ts next => $"<li>" ++ [10] ++ join [10] (map (html_f o false) ts) ++ [10] ++ $"</li>" ++ [10] ++ html_lis o next
+  | FItem _ _ ts =>
+    $"<li>" ++ (if tight && first_fpara ts then [] else [10]) ++ join [10] (map (html_f o tight) ts) ++ (if tight && last_fpara ts then [] else [10]) ++ $"</li>"
+  | FMore _ _ ts _ next =>
+    $"<li>" ++ (if tight && first_fpara ts then [] else [10]) ++ join [10] (map (html_f o tight) ts) ++ (if tight && last_fpara ts then [] else [10]) ++ $"</li>" ++
+    [10] ++ html_lis o tight next
   | _ => []
   end.
 
@@ -83,7 +96,7 @@ Proof. induction ts as [|t r IH]; [reflexivity|]. cbn [tok_seq map blank_tok app
 
 Lemma tok_of_chain_is_list md : forall t, is_item t = true -> wf_b t = true -> exists s lo items, tok_of md t = List s lo items.
 Proof.
-  induction t as [| | | mk pad ts | mk pad ts next IH | | | ]; intros Hi Hw; try discriminate.
+  induction t as [| | | mk pad ts | mk pad ts bl next IH | | | ]; intros Hi Hw; try discriminate.
   - cbn [tok_of]. eexists. eexists. eexists. reflexivity.
   - cbn [wf_b] in Hw. repeat rewrite andb_true_iff in Hw. destruct Hw as [[[_ Hin] _] Hwn].
     destruct (IH Hin Hwn) as (s & lo & items & E). cbn [tok_of]. rewrite E. eexists. eexists. eexists. reflexivity.
@@ -91,8 +104,8 @@ Qed.
 
 Lemma is_para_tok t : wf_b t = true -> match tok_of false t with Paragraph _ => true | _ => false end = is_fpara t.
 Proof.
-  intros Hw. destruct t as [ | | | |mk pad ts next| | | ]; try reflexivity.
-  destruct (tok_of_chain_is_list false (FMore mk pad ts next) eq_refl Hw) as (s & lo & items & ->). reflexivity.
+  intros Hw. destruct t as [ | | | |mk pad ts bl next| | | ]; try reflexivity.
+  destruct (tok_of_chain_is_list false (FMore mk pad ts bl next) eq_refl Hw) as (s & lo & items & ->). reflexivity.
 Qed.
 
 Lemma first_para_tok ts : forallb wf_b ts = true -> first_is_paragraph (map (tok_of false) ts) = first_fpara ts.
@@ -170,47 +183,53 @@ Proof.
     rewrite !serialize_app, E. cbn. rewrite ?app_nil_r, <- ?app_assoc. reflexivity.
 Qed.
 
-Lemma ser_li o a ch : ch <> [] ->
-  serialize (render o false false (ListItem a ch)) = $"<li>" ++ [10] ++ serialize (join_items [nl] (map (render o false false) ch)) ++ [10] ++ $"</li>".
+Lemma ser_li o sup a ch : ch <> [] ->
+  serialize (render o sup false (ListItem a ch)) =
+  $"<li>" ++ (if sup && first_is_paragraph ch then [] else [10]) ++ serialize (join_items [nl] (map (render o sup false) ch)) ++
+  (if sup && last_is_paragraph ch then [] else [10]) ++ $"</li>".
 Proof.
-  intros H. rewrite render_item by assumption. cbn [andb]. unfold wrap, serialize. cbn [flat_map app]. rewrite !flat_map_app.
-  cbn [flat_map ser_item nl app]. cbn. rewrite ?app_nil_r, <- ?app_assoc. reflexivity.
+  intros H. rewrite render_item by assumption. unfold wrap, serialize. cbn [flat_map app]. rewrite !flat_map_app.
+  destruct (sup && first_is_paragraph ch), (sup && last_is_paragraph ch); cbn [flat_map ser_item nl app]; cbn; rewrite ?app_nil_r, <- ?app_assoc; reflexivity.
 Qed.
 
 Definition start_of (mk : marker) : option Z := match mk with MBullet _ => None | MOrdered ds _ => Some (int_of_digits ds) end.
 
-(* the items of a loose list, rendered *)
+(* the items of a list, rendered *)
 Lemma html_chain o f (IH : forall t sup, (depth t <= f)%nat -> wf_b t = true -> serialize (render o sup false (tok_of false t)) = html_f o sup t) :
   forall t, is_item t = true -> wf_b t = true -> (depth t <= S f)%nat ->
-  exists lo items, tok_of false t = List (start_of (marker_of t)) lo items /\ items <> [] /\
-    serialize (join_items [nl] (map (render o false false) items)) = html_lis o t.
+  exists items, tok_of false t = List (start_of (marker_of t)) (chain_loose t) items /\ items <> [] /\
+    forall sup, serialize (join_items [nl] (map (render o sup false) items)) = html_lis o sup t.
 Proof.
-  assert (Kids : forall ts, ts <> [] -> forallb wf_b ts = true -> Forall (fun t => (depth t <= f)%nat) ts ->
-            serialize (join_items [nl] (map (render o false false) (tok_seq false ts))) = join [10] (map (html_f o false) ts)).
-  { intros ts Hne Hall Hd. rewrite tok_seq_plain, map_map. rewrite (serialize_join (fun x => render o false false (tok_of false x))).
+  assert (Kids : forall ts sup, ts <> [] -> forallb wf_b ts = true -> Forall (fun t => (depth t <= f)%nat) ts ->
+            serialize (join_items [nl] (map (render o sup false) (tok_seq false ts))) = join [10] (map (html_f o sup) ts)).
+  { intros ts sup Hne Hall Hd. rewrite tok_seq_plain, map_map. rewrite (serialize_join (fun x => render o sup false (tok_of false x))).
     f_equal. apply map_ext_in. intros x Hx. rewrite forallb_forall in Hall. rewrite Forall_forall in Hd. apply IH; [apply Hd; exact Hx|apply Hall; exact Hx]. }
-  induction t as [| | | mk pad ts | mk pad ts next IHn | | | ]; intros Hi Hw Hd; try discriminate.
+  induction t as [| | | mk pad ts | mk pad ts bl next IHn | | | ]; intros Hi Hw Hd; try discriminate.
   - cbn [wf_b] in Hw. repeat rewrite andb_true_iff in Hw. destruct Hw as [[[[[[Hmk Hp1] Hp4] Hs] Hall] Hg] Hth].
     apply marker_ok_reflect in Hmk.
     assert (Hne : ts <> []) by (destruct ts; [discriminate|discriminate]).
-    cbn [tok_of marker_of].
+    cbn [tok_of marker_of chain_loose].
     change ((fix seq (ts0 : list ftree) : list tok := match ts0 with [] => [] | t :: r => tok_of false t :: match r with [] => [] | _ :: _ => blank_tok false ++ seq r end end) ts) with (tok_seq false ts).
-    rewrite (marker_list mk Hmk). eexists. eexists. split; [reflexivity|]. split; [discriminate|].
+    rewrite (marker_list mk Hmk). eexists. split; [reflexivity|]. split; [discriminate|]. intros sup.
     cbn [map join_items]. rewrite ser_li by (rewrite tok_seq_plain; destruct ts; [contradiction|discriminate]).
-    cbn [depth] in Hd. rewrite (Kids ts Hne Hall) by (apply Forall_forall; intros x Hx; eapply depth_children; eassumption).
-    reflexivity.
+    cbn [depth] in Hd. rewrite (Kids ts sup Hne Hall) by (apply Forall_forall; intros x Hx; eapply depth_children; eassumption).
+    rewrite tok_seq_plain, first_para_tok, last_para_tok by exact Hall. reflexivity.
   - cbn [wf_b] in Hw. repeat rewrite andb_true_iff in Hw. destruct Hw as [[[[[[[[[Hmk Hp1] Hp4] Hs] Hall] Hg] Hth] Hin] Hk] Hwn].
     apply marker_ok_reflect in Hmk.
     assert (Hne : ts <> []) by (destruct ts; [discriminate|discriminate]).
     cbn [depth] in Hd.
-    destruct (IHn Hin Hwn ltac:(lia)) as (lo & items & E & Hni & Hser).
-    cbn [tok_of marker_of].
+    destruct (IHn Hin Hwn ltac:(lia)) as (items & E & Hni & Hser).
+    cbn [tok_of marker_of chain_loose].
     change ((fix seq (ts0 : list ftree) : list tok := match ts0 with [] => [] | t :: r => tok_of false t :: match r with [] => [] | _ :: _ => blank_tok false ++ seq r end end) ts) with (tok_seq false ts).
-    rewrite E, (marker_list mk Hmk). cbn [blank_tok]. rewrite app_nil_r.
-    eexists. eexists. split; [reflexivity|]. split; [discriminate|].
+    rewrite E, (marker_list mk Hmk). cbn [blank_tok negb andb].
+    assert (Eb : tok_seq false ts ++ (if bl then [] else []) = tok_seq false ts) by (destruct bl; apply app_nil_r). rewrite Eb.
+    assert (El : (if bl then true else 1 <? Z.of_nat (length ts)) || chain_loose next = bl || (1 <? Z.of_nat (length ts)) || chain_loose next) by (destruct bl; reflexivity).
+    rewrite El.
+    eexists. split; [reflexivity|]. split; [discriminate|]. intros sup.
     cbn [map]. rewrite join_items_cons by (destruct items; [contradiction|discriminate]).
     rewrite !serialize_app, Hser. rewrite ser_li by (rewrite tok_seq_plain; destruct ts; [contradiction|discriminate]).
-    rewrite (Kids ts Hne Hall) by (apply Forall_forall; intros x Hx; eapply depth_children; [exact Hx|lia]).
+    rewrite (Kids ts sup Hne Hall) by (apply Forall_forall; intros x Hx; eapply depth_children; [exact Hx|lia]).
+    rewrite tok_seq_plain, first_para_tok, last_para_tok by exact Hall.
     cbn [html_lis]. cbn [serialize flat_map ser_item nl app]. repeat (rewrite <- ?app_assoc; cbn [app]). reflexivity.
 Qed.
 
@@ -218,11 +237,11 @@ Lemma html_fragment o : forall f t sup, (depth t <= f)%nat -> wf_b t = true ->
   serialize (render o sup false (tok_of false t)) = html_f o sup t.
 Proof.
   induction f as [|f IH]; intros t sup Hd Hw.
-  - destruct t as [c body more|ch n content|ts|mk pad ts|mk pad ts next|lv hc hb|rc rn|e0 epre ech edbl ew epost]; [| |cbn [depth] in Hd; lia|cbn [depth] in Hd; lia|cbn [depth] in Hd; lia| |reflexivity|apply html_em].
+  - destruct t as [c body more|ch n content|ts|mk pad ts|mk pad ts bl next|lv hc hb|rc rn|e0 epre ech edbl ew epost]; [| |cbn [depth] in Hd; lia|cbn [depth] in Hd; lia|cbn [depth] in Hd; lia| |reflexivity|apply html_em].
     + apply html_para.
     + cbn [tok_of render html_f f_language f_content]. cbn. rewrite ?app_nil_r. reflexivity.
     + apply html_head. cbn [wf_b] in Hw. repeat rewrite andb_true_iff in Hw. destruct Hw as [[[[[[H1 H2] _] _] _] _] _]. apply Nat.leb_le in H1, H2. lia.
-  - destruct t as [c body more|ch n content|ts|mk pad ts|mk pad ts next|lv hc hb|rc rn|e0 epre ech edbl ew epost]; [| | | | |apply html_head; cbn [wf_b] in Hw; repeat rewrite andb_true_iff in Hw; destruct Hw as [[[[[[H1 H2] _] _] _] _] _]; apply Nat.leb_le in H1, H2; lia|reflexivity|apply html_em].
+  - destruct t as [c body more|ch n content|ts|mk pad ts|mk pad ts bl next|lv hc hb|rc rn|e0 epre ech edbl ew epost]; [| | | | |apply html_head; cbn [wf_b] in Hw; repeat rewrite andb_true_iff in Hw; destruct Hw as [[[[[[H1 H2] _] _] _] _] _]; apply Nat.leb_le in H1, H2; lia|reflexivity|apply html_em].
     + apply html_para.
     + cbn [tok_of render html_f f_language f_content]. cbn. rewrite ?app_nil_r. reflexivity.
     + cbn [wf_b] in Hw. repeat rewrite andb_true_iff in Hw. destruct Hw as [[Hs Hall] Hg].
@@ -257,18 +276,15 @@ Proof.
     + (* a list of several items *)
       pose proof Hw as Hw0. cbn [wf_b] in Hw. repeat rewrite andb_true_iff in Hw. destruct Hw as [[[[[[[[[Hmk Hp1] Hp4] Hs] Hall] Hg] Hth] Hin] Hk] Hwn].
       apply marker_ok_reflect in Hmk.
-      destruct (html_chain o f IH (FMore mk pad ts next) eq_refl Hw0 Hd) as (lo & items & E & Hni & Hser).
+      destruct (html_chain o f IH (FMore mk pad ts bl next) eq_refl Hw0 Hd) as (items & E & Hni & Hser).
       rewrite E. cbn [render marker_of]. cbn [html_lis] in Hser.
-      assert (Elo : lo = true).
-      { cbn [tok_of] in E. destruct (tok_of_chain_is_list false next Hin Hwn) as (s2 & lo2 & it2 & E2). rewrite E2 in E. cbn [negb orb] in E. injection E as _ <- _. reflexivity. }
-      subst lo. cbn [negb].
-      unfold wrap, serialize. cbn [flat_map app]. rewrite !flat_map_app. change (flat_map ser_item) with serialize. rewrite Hser. cbn [html_f].
+      unfold wrap, serialize. cbn [flat_map app]. rewrite !flat_map_app. change (flat_map ser_item) with serialize. rewrite Hser. cbn [html_f chain_loose].
       destruct mk as [b|ds d]; cbn [start_of list_open list_close]; try destruct (int_of_digits ds =? 1); cbn; rewrite ?app_nil_r; repeat (rewrite <- ?app_assoc; cbn [app]); reflexivity.
 Qed.
 
 Lemma html_f_starts o t : exists r, html_f o false t = 60 :: r.
 Proof.
-  destruct t as [c body more|ch n content|ts|mk pad ts|mk pad ts next|lv hc hb|rc rn|e0 epre ech edbl ew epost]; cbn [html_f]; try (eexists; reflexivity);
+  destruct t as [c body more|ch n content|ts|mk pad ts|mk pad ts bl next|lv hc hb|rc rn|e0 epre ech edbl ew epost]; cbn [html_f]; try (eexists; reflexivity);
   (destruct mk as [b|ds d]; cbn [list_open]; [eexists; reflexivity|]; destruct (int_of_digits ds =? 1); eexists; reflexivity).
 Qed.
 
